@@ -2,6 +2,7 @@ package prop
 
 import (
 	"fmt"
+	"regexp"
 	"strings"
 
 	"verif/gen"
@@ -130,14 +131,18 @@ func panicFunc(trace string) string {
 			if j := strings.LastIndex(f, "("); j > 0 {
 				f = f[:j]
 			}
-			if strings.Contains(f, "errlog.") || strings.Contains(f, "HandleAbort") {
+			if strings.Contains(f, "errlog.") || strings.Contains(f, "HandleAbort") || strings.HasPrefix(f, "verifmap.") {
 				continue
 			}
+			// Innermost *named* function: strip closure and range-func suffixes.
+			f = closureSfx.ReplaceAllString(f, "")
 			return f
 		}
 	}
 	return "?"
 }
+
+var closureSfx = regexp.MustCompile(`(\.func\d+|-range\d+|\.\d+)+$`)
 
 func init() {
 	Registry["C01"] = ciscoPlan("ASA", "C01")
